@@ -425,6 +425,97 @@ type c07ExpResult struct {
 	Info       []string `json:"info,omitempty"`
 }
 
+// c07PublicExport compares one exporter output with everything an observer of the cleartext handshake can compute.
+func c07PublicExport(label string, n int, got []byte, pub [][]byte, cr, sr []byte) (viol []string, candidates int) {
+	for _, hf := range []func() hash.Hash{sha256.New, sha512.New384} {
+		empty := hf().Sum(nil)
+		for ki, k := range pub {
+			for _, seed := range [][]byte{
+				append(append([]byte(label), cr...), sr...), append(append([]byte(label), sr...), cr...),
+			} {
+				candidates++
+				if cand, e := prf.PHash(k, seed, n, hf); e == nil && bytes.Equal(cand, got) {
+					viol = append(viol, fmt.Sprintf(
+						"exporter output for %q equals the TLS 1.2 PRF keyed with public value #%d over label and hello randoms", label, ki))
+				}
+			}
+			if len(k) == 0 {
+				k = make([]byte, hf().Size())
+			}
+			candidates++
+			d, e1 := keyschedule.HkdfExpandLabel(hf, k, label, empty, hf().Size())
+			if e1 != nil {
+				continue
+			}
+			if cand, e2 := keyschedule.HkdfExpandLabel(hf, d, "exporter", empty, n); e2 == nil && bytes.Equal(cand, got) {
+				viol = append(viol, fmt.Sprintf("exporter output for %q equals the TLS 1.3 exporter keyed with public value #%d", label, ki))
+			}
+		}
+	}
+
+	return viol, candidates
+}
+
+// c07ExportDuring: the application may call the exporter from its handshake callbacks (VerifyConnection runs on both sides
+// before the handshake has finished).  Whatever is handed out there - an error is fine - must not be computable from the
+// cleartext part of the handshake either.
+func c07ExportDuring(cs *c07Case, res *c07ExpResult) {
+	type early struct {
+		side  string
+		label string
+		n     int
+		got   []byte
+	}
+	var mu sync.Mutex
+	var got []early
+	hook := func(side string) func(*State) error {
+		return func(st *State) error {
+			for _, label := range []string{"EXTRACTOR-dtls_srtp", "EXPORTER-c07-early"} {
+				for _, n := range []int{16, 48} {
+					if b, err := st.ExportKeyingMaterial(label, nil, n); err == nil {
+						mu.Lock()
+						got = append(got, early{side, label, n, b})
+						mu.Unlock()
+					}
+				}
+			}
+
+			return nil
+		}
+	}
+	sc := cs.Scen
+	co, so := sc.buildOptions(&scenStores{})
+	co = append(co, WithVerifyConnection(hook("c")))
+	so = append(so, WithVerifyConnection(hook("s")))
+	r := newLabRun()
+	if err := r.setupWith(co, so); err != nil {
+		res.Info = append(res.Info, "export-during-handshake part not run: "+err.Error())
+
+		return
+	}
+	defer r.closeAll()
+	if ce, se := r.handshakeLossless(8 * time.Second); ce != nil || se != nil {
+		res.Info = append(res.Info, fmt.Sprintf("export-during-handshake part: handshake failed (%v / %v)", ce, se))
+
+		return
+	}
+	common := commonOf(r.c.conn)
+	lr, rr := common.LocalRandom.MarshalFixed(), common.RemoteRandom.MarshalFixed()
+	cr, sr := lr[:], rr[:]
+	pub := [][]byte{nil, {}, make([]byte, 32), make([]byte, 48), cr, sr, append(append([]byte(nil), cr...), sr...),
+		append(append([]byte(nil), sr...), cr...)}
+	mu.Lock()
+	defer mu.Unlock()
+	for _, e := range got {
+		res.Exports++
+		v, nc := c07PublicExport(e.label, e.n, e.got, pub, cr, sr)
+		res.Candidates += nc
+		for _, x := range v {
+			res.Violations = append(res.Violations, fmt.Sprintf("inside the %s's VerifyConnection callback: %s", map[string]string{"c": "client", "s": "server"}[e.side], x))
+		}
+	}
+}
+
 func runC07Exporter(idx int, cs *c07Case) c07ExpResult { //nolint:cyclop,gocognit
 	res := c07ExpResult{Case: idx, Name: cs.Name}
 	stores := &scenStores{}
@@ -483,34 +574,15 @@ func runC07Exporter(idx int, cs *c07Case) c07ExpResult { //nolint:cyclop,gocogni
 					res.Info = append(res.Info, "client and server export different keying material for "+key+" (property C01)")
 				}
 				seen[key] = got
-				for _, hf := range []func() hash.Hash{sha256.New, sha512.New384} {
-					empty := hf().Sum(nil)
-					for ki, k := range pub {
-						for _, seed := range [][]byte{
-							append(append([]byte(label), cr...), sr...), append(append([]byte(label), sr...), cr...),
-						} {
-							res.Candidates++
-							if cand, e := prf.PHash(k, seed, n, hf); e == nil && bytes.Equal(cand, got) {
-								res.Violations = append(res.Violations, fmt.Sprintf(
-									"exporter output for %q equals the TLS 1.2 PRF keyed with public value #%d over label and hello randoms", label, ki))
-							}
-						}
-						if len(k) == 0 {
-							k = make([]byte, hf().Size())
-						}
-						res.Candidates++
-						d, e1 := keyschedule.HkdfExpandLabel(hf, k, label, empty, hf().Size())
-						if e1 != nil {
-							continue
-						}
-						if cand, e2 := keyschedule.HkdfExpandLabel(hf, d, "exporter", empty, n); e2 == nil && bytes.Equal(cand, got) {
-							res.Violations = append(res.Violations, fmt.Sprintf(
-								"exporter output for %q equals the TLS 1.3 exporter keyed with public value #%d", label, ki))
-						}
-					}
-				}
+				v, nc := c07PublicExport(label, n, got, pub, cr, sr)
+				res.Candidates += nc
+				res.Violations = append(res.Violations, v...)
 			}
 		}
+	}
+
+	if cs.History == 0 && !cs.SnapshotClose {
+		c07ExportDuring(cs, &res)
 	}
 
 	return res
